@@ -705,3 +705,33 @@ Theorem first_is_current s0 :
      is_data_equal [] (store_after s0 pre) = false ->
      hd_error (run s0 (pre ++ e :: post)) = Some (store_after s0 pre)).
 Proof. split; [exact (first_is_pulled_content s0) | exact (first_pull_delivers_current s0)]. Qed.
+
+(** * multi-member store: a client that knows every member reaches a live one whenever the
+    store has its quorum; a client pinned to one member does not *)
+
+Lemma existsb_eqb_in e l : existsb (Nat.eqb e) l = true <-> In e l.
+Proof.
+  rewrite existsb_exists. split.
+  - intros [x [I E]]. apply Nat.eqb_eq in E. subst. exact I.
+  - intros I. exists e. split; [exact I| apply Nat.eqb_refl].
+Qed.
+
+Lemma all_endpoints_reach n down :
+  NoDup down -> quorum n (List.length down) = true -> reachable (all_members n) down = true.
+Proof.
+  intros ND Q. unfold quorum in Q. apply Nat.ltb_lt in Q.
+  unfold reachable, all_members.
+  destruct (existsb (fun e => negb (existsb (Nat.eqb e) down)) (seq 0 n)) eqn:E; [reflexivity|].
+  exfalso.
+  assert (INC : incl (seq 0 n) down).
+  { intros x Ix. apply existsb_eqb_in.
+    destruct (existsb (Nat.eqb x) down) eqn:Ex; [reflexivity|].
+    assert (existsb (fun e => negb (existsb (Nat.eqb e) down)) (seq 0 n) = true) as C.
+    { apply existsb_exists. exists x. split; [exact Ix| rewrite Ex; reflexivity]. }
+    congruence. }
+  pose proof (NoDup_incl_length (seq_NoDup n 0) INC) as L. rewrite seq_length in L. lia.
+Qed.
+
+Lemma single_endpoint_unreachable :
+  quorum 3 1 = true /\ reachable [1] [1] = false /\ reachable (all_members 3) [1] = true.
+Proof. vm_compute. auto. Qed.
